@@ -192,6 +192,51 @@ ImplAllStop(node, k) == ImplYieldNode(node, <<>>, k)[1]
 \* Ref: such a consumer sees exactly the first k entries (all of them if there are fewer)
 RefPrefix(all, k) == SubSeq(all, 1, IF k < Len(all) THEN k ELSE Len(all))
 
+(* The cycle guard of streaming.go: every walk (one Lookup, one All) owns a *)
+(* set "seen" of the kid references it has scanned and skips a kid that is  *)
+(* already in it.  Nodes are identified by their path from the root.  A     *)
+(* Lookup made by the consumer of All() while the enumeration is under way  *)
+(* is a walk of its own and leaves the enumeration's set alone.  Variant    *)
+(* "sharedSeen" (a seeded defect, negative control) keeps one set per       *)
+(* reader, cleared at the start of every walk.                              *)
+RECURSIVE ImplLookupMarks(_, _, _, _)
+RECURSIVE ImplLookupScan(_, _, _, _, _)
+\* the set after lookupInNode searched key below node (at path), starting with seen
+ImplLookupMarks(node, path, key, seen) ==
+  IF node.kind = "inner" THEN ImplLookupScan(node, path, 1, key, seen) ELSE seen
+ImplLookupScan(node, path, i, key, seen) ==
+  IF i > Len(node.kids) THEN seen
+  ELSE LET p == Append(path, i)
+           c == node.kids[i]
+       IN IF p \in seen THEN ImplLookupScan(node, path, i + 1, key, seen)
+          ELSE IF Len(c.lim) = 2 /\ key >= c.lim[1] /\ key <= c.lim[2]
+          THEN ImplLookupMarks(c, p, key, seen \cup {p})
+          ELSE ImplLookupScan(node, path, i + 1, key, seen \cup {p})
+\* All(), whose consumer calls Lookup(key) when it receives its at-th entry;
+\* st = [out: what was yielded, seen: the enumeration's set]
+RECURSIVE ImplNestNode(_, _, _, _, _, _)
+RECURSIVE ImplNestEnts(_, _, _, _, _, _)
+RECURSIVE ImplNestKids(_, _, _, _, _, _, _)
+ImplNestNode(node, path, st, at, key, root) ==
+  IF node.kind = "leaf" THEN ImplNestEnts(node.ents, 1, st, at, key, root)
+  ELSE IF node.kind = "inner" THEN ImplNestKids(node, path, 1, st, at, key, root)
+  ELSE st
+ImplNestEnts(ents, i, st, at, key, root) ==
+  IF i > Len(ents) THEN st
+  ELSE LET out2 == Append(st.out, ents[i])
+           seen2 == IF Len(out2) = at /\ Variant = "sharedSeen"
+                    THEN ImplLookupMarks(root, <<>>, key, {})   \* the nested walk cleared and refilled the shared set
+                    ELSE st.seen
+       IN ImplNestEnts(ents, i + 1, [out |-> out2, seen |-> seen2], at, key, root)
+ImplNestKids(node, path, i, st, at, key, root) ==
+  IF i > Len(node.kids) THEN st
+  ELSE LET p == Append(path, i)
+       IN IF p \in st.seen THEN ImplNestKids(node, path, i + 1, st, at, key, root)
+          ELSE ImplNestKids(node, path, i + 1,
+                            ImplNestNode(node.kids[i], p, [out |-> st.out, seen |-> st.seen \cup {p}], at, key, root),
+                            at, key, root)
+ImplAllNested(tree, at, key) == ImplNestNode(tree, <<>>, [out |-> <<>>, seen |-> {}], at, key, tree).out
+
 (* pdf.Writer.Put serialises an object at once - unless a stream is open on *)
 (* the writer: then the object is queued and serialised when the stream is  *)
 (* closed.  The tree writer never touches a dictionary after Put, so the    *)
